@@ -268,6 +268,9 @@ func gen(o hreg.Opts, w *bufio.Writer) error {
 	heavyIdx := 0
 	for _, p := range ps {
 		for _, e := range Registry {
+			if p.name == "xdata" && !xdataTypes[e.Name] {
+				continue
+			}
 			t := schemas[e.Name+" "+p.tok]
 			em.cur = t
 			if t == nil {
